@@ -146,8 +146,14 @@ CHECKS["C19"] = ("Proof (PARTIAL by nature): over the regenerated CLI descriptio
                  "abbreviations, required exclusive action groups with the documented actions; tape extract writes under --into else beside the "
                  "archive, list writes nothing; C19.archive_name_rule — the disk archivers accept an archive name exactly when what follows its last "
                  "dot is sd / fd in either case (model of the check in DiskArchiveCli.run, compared with the real tools on 28 name shapes). "
-                 "Interpreter start-up/argparse are outside the model: the finite configuration space of the "
-                 "property is enumerated exhaustively at process level with tree diffs. Known finding K1 (create --into) is reported, not hidden.", D, "7 C19")
+                 "Command lines: a Lean model of CPython's argparse (Model/Argparse.lean: classification of every argument string, alternation of "
+                 "positionals and options, clustered flags, explicit =value, --, exclusive group, required tests) interprets the parser descriptions "
+                 "regenerated from the source together with how each run() uses its parser (parse_args / parse_known_args + the --eos filter, read "
+                 "from the AST); C19.unknown_option_rejected, two_actions_rejected, missing_action_rejected hold for every tool and EVERY argument "
+                 "list (induction over the parsing loop). Tie: the real parsers (in-process parse_known_args: same namespace, same extras) and the "
+                 "real run() (status 2 exactly when the model says so, nothing created) on all argument lists of length <= 2 over a 50-string alphabet "
+                 "per tool and thousands of random and mostly-valid longer ones. Interpreter start-up stays outside the model: the configuration "
+                 "space of the property is also enumerated at process level with tree diffs. Known finding K1 (create --into) is reported, not hidden.", D, "7 C19")
 CHECKS["C20"] = ("Proof: tape create is a function of the sources' contents only (mode, archive name, rest of the file system irrelevant); "
                  "list writes nothing, extract only under the destination; C20.performCore_pure — two disk batches on the same image whose sources agree "
                  "position by position on catalog name, extensions, option and content give the same image or the same failure, whatever the "
